@@ -280,7 +280,8 @@ MicroClient(st, c) ==
   IF C.st = "do" THEN
      LET op == Op(c, st) IN
      CASE op.op \in {"add", "prio"} -> {[st EXCEPT !.cl[c].st = "sendct"]}
-       [] op.op = "write" -> {[st EXCEPT !.cl[c].st = "sendio"]}
+       \* Progress.Write; n = 2: the line reaches the container in two calls (its text, then its line feed)
+       [] op.op = "write" -> {[st EXCEPT !.cl[c].st = "sendio", !.cl[c].k = IF op.n = 2 THEN 2 ELSE 1]}
        [] op.op \in {"incr", "abort", "setcur", "settotal", "trigger", "refill"} ->
             IF st.bar[op.b].exists THEN {[st EXCEPT !.cl[c].st = "sendbar"]} ELSE {Return(st, c)}
        [] op.op = "get" ->       \* ID, Current, Completed, Aborted: four round trips to the bar (or its published state)
@@ -434,19 +435,25 @@ MicroCt(st) ==
                                !.written = @ + st.cw, !.cw = 0, !.nwrites = IF writes /\ @ < 3 THEN @ + 1 ELSE @,
                                !.cuuPend = Len(T.rows) - T.popc > 0] IN
          IF failsOut   \* the error comes back from render(): serve() starts the drain goroutine and cancels (no drop: the cycle is over)
-         THEN {[st EXCEPT !.nwrites = @ + 1, !.err = TRUE, !.drain = "run", !.ct.pc = "pcancel_gate"]}
+         THEN (IF T.final   \* in the final render loop the error is printed and the loop left: no drain goroutine, no cancel
+               THEN {[st EXCEPT !.nwrites = @ + 1, !.err = TRUE, !.debug = @ + 1, !.ct.pc = "hm_gate", !.ct.cmd = "end"]}
+               ELSE {[st EXCEPT !.nwrites = @ + 1, !.err = TRUE, !.drain = "run", !.ct.pc = "pcancel_gate"]})
          ELSE IF T.final THEN {[st1 EXCEPT !.ct.pc = "hm_gate", !.ct.cmd = "state"]}
          ELSE {[st1 EXCEPT !.ct.pc = "idle"]}
     [] T.pc = "drop_do" ->
          \* close(s.iterDrop); b.cancel(); return err  -- then serve(): go drain(); gate; p.cancel()
-         {[st EXCEPT !.iterDrop = TRUE, !.bar[T.b].ctx = TRUE, !.err = TRUE, !.drain = "run", !.ct.pc = "pcancel_gate"]}
+         IF T.final   \* ... or, in the final render loop: print the error, leave the loop, end the heap manager
+         THEN {[st EXCEPT !.iterDrop = TRUE, !.bar[T.b].ctx = TRUE, !.err = TRUE, !.debug = @ + 1, !.ct.pc = "hm_gate", !.ct.cmd = "end"]}
+         ELSE {[st EXCEPT !.iterDrop = TRUE, !.bar[T.b].ctx = TRUE, !.err = TRUE, !.drain = "run", !.ct.pc = "pcancel_gate"]}
     [] T.pc = "pcancel_do" ->
          {[st EXCEPT !.pctx = TRUE, !.done = IF Refresh = "none" THEN TRUE ELSE @,
                      !.bar = [b \in Bars |-> [@[b] EXCEPT !.ctx = TRUE]], !.ct.pc = "err_wait"]}
     [] T.pc = "err_wait" /\ st.done ->
          {[st EXCEPT !.debug = @ + 1, !.ct.pc = "hm_gate", !.ct.cmd = "end"]}
     [] T.pc = "io_do" ->
-         {Return([st EXCEPT !.cw = @ + 1, !.accepted = @ + 1, !.ct.pc = "idle"], T.c)}
+         LET st1 == [st EXCEPT !.cw = @ + 1, !.accepted = @ + 1, !.ct.pc = "idle"] IN
+         IF st.cl[T.c].k > 1 THEN {[st1 EXCEPT !.cl[T.c].st = "sendio", !.cl[T.c].k = @ - 1]}   \* the second call follows at once
+         ELSE {Return(st1, T.c)}
     [] OTHER -> {}
 
 (* --- bars: the render closure, run by the bar's goroutine or, once it has exited, by the render goroutine --- *)
